@@ -57,7 +57,10 @@ func (e *Engine) verifyFunc(key string) (res *FuncResult) {
 			case evalError:
 				res.Err = "contract " + key + ": " + ee.msg
 			default:
-				panic(r)
+				// anything else (a term constructor refusing an ill-sorted comparison, an unsupported value shape): the
+				// contract no longer fits the code. The function is reported as not brought under contract; the checker
+				// must not crash on a changed tree.
+				res.Err = fmt.Sprint("contract ", key, " does not fit the code any more (engine: ", r, ")")
 			}
 		}
 		res.Obls = x.obls
